@@ -366,7 +366,7 @@ def coverage(prog, fn, st, target, shape):
                             same = _same_expr(bound, d) or alias_ok or (
                                 isinstance(d, ast.Name) and _local_alias(fn, d.id) is not None
                                 and _same_expr(_local_alias(fn, d.id), bound))
-                            if same and _unconditional_in(p, child):
+                            if same and child is stmt and _unconditional_in(p, child):
                                 found = ('loop', short(bound))
                             elif same:
                                 found = ('cond-loop', short(bound))
@@ -375,7 +375,7 @@ def coverage(prog, fn, st, target, shape):
                             break
                         if isinstance(p.target, ast.Tuple) and any(isinstance(e, ast.Name) and e.id == i.id for e in p.target.elts) \
                                 and isinstance(p.iter, ast.Call) and isinstance(p.iter.func, ast.Name) and p.iter.func.id == 'enumerate':
-                            found = ('enumerate', short(p.iter)) if _unconditional_in(p, child) else ('cond-loop', short(p.iter))
+                            found = ('enumerate', short(p.iter)) if (child is stmt and _unconditional_in(p, child)) else ('cond-loop', short(p.iter))
                             break
                         if isinstance(p.target, ast.Name) and p.target.id == i.id:
                             found = ('other-loop', short(p.iter))
